@@ -100,4 +100,56 @@ pub fn maybe_addr(api: &dyn Api, human: Option<String>) -> (r: StdResult<Option<
     ensures r is Ok ==> (human is None ==> r->Ok_0 is None) && (human is Some ==> r->Ok_0 is Some && r->Ok_0->Some_0@ == human->Some_0@)
 { unimplemented!() }
 
+
+// ---- balance.rs: NativeBalance (ASSUMED contracts; source: cw-utils-2.0.0/src/balance.rs).
+// Abstract view: `amt(d)` = amount held in denom d; `wf()` = denoms pairwise distinct (kept by every operation below).
+// The result of the sequential subtraction `sub(Vec<Coin>)` is the uninterpreted function `nb_sub`; its success
+// condition is the uninterpreted predicate `nb_sub_ok`; only the facts stated in `ax_nb_sub` are known about them.
+pub struct NativeBalance(pub Vec<Coin>);
+impl Clone for NativeBalance { #[verifier::external_body] fn clone(&self) -> (r: Self) ensures r == *self { unimplemented!() } }
+impl PartialEqSpecImpl for NativeBalance { open spec fn obeys_eq_spec() -> bool { true } open spec fn eq_spec(&self, o: &NativeBalance) -> bool { *self == *o } }
+impl PartialEq for NativeBalance { #[verifier::external_body] fn eq(&self, o: &NativeBalance) -> (r: bool) { unimplemented!() } }
+impl core::default::Default for NativeBalance {
+    #[verifier::external_body]
+    fn default() -> (r: Self) ensures r.0@.len() == 0, r.wf(), forall|d: Seq<char>| r.amt(d) == 0 { unimplemented!() }
+}
+pub open spec fn coins_total(c: Seq<Coin>, d: Seq<char>) -> nat decreases c.len() {
+    if c.len() == 0 { 0 } else { coins_total(c.drop_last(), d) + (if c.last().denom@ == d { c.last().amount@ } else { 0 }) }
+}
+pub uninterp spec fn nb_sub_ok(b: NativeBalance, c: Seq<Coin>) -> bool;
+pub uninterp spec fn nb_sub(b: NativeBalance, c: Seq<Coin>) -> NativeBalance;
+impl NativeBalance {
+    pub uninterp spec fn amt(&self, d: Seq<char>) -> nat;
+    pub uninterp spec fn wf(&self) -> bool;
+    /// `balance - Vec<Coin>`: coin by coin; any underflow or missing denom is an error
+    #[verifier::external_body]
+    pub fn sub(self, amount: Vec<Coin>) -> (r: StdResult<NativeBalance>)
+        ensures r is Ok <==> nb_sub_ok(self, amount@), r is Ok ==> r->Ok_0 == nb_sub(self, amount@),
+    { unimplemented!() }
+    /// saturating subtraction of one coin; error if the denom is not held at all
+    #[verifier::external_body]
+    pub fn sub_saturating(self, other: Coin) -> (r: StdResult<NativeBalance>)
+        requires self.wf()
+        ensures r is Ok ==> r->Ok_0.wf()
+            && r->Ok_0.amt(other.denom@) == (if self.amt(other.denom@) >= other.amount@ { self.amt(other.denom@) - other.amount@ } else { 0 })
+            && (forall|d: Seq<char>| d != other.denom@ ==> r->Ok_0.amt(d) == self.amt(d)),
+    { unimplemented!() }
+    /// `+= Coin` (Uint128 `+` panics on overflow: partial)
+    #[verifier::external_body]
+    pub fn add_assign(&mut self, other: Coin)
+        requires old(self).wf()
+        ensures final(self).wf(), final(self).amt(other.denom@) == old(self).amt(other.denom@) + other.amount@,
+            forall|d: Seq<char>| d != other.denom@ ==> final(self).amt(d) == old(self).amt(d),
+    { unimplemented!() }
+    #[verifier::external_body]
+    pub fn is_empty(&self) -> (r: bool)
+        ensures r ==> forall|d: Seq<char>| self.amt(d) == 0
+    { unimplemented!() }
+}
+/// facts about the sequential subtraction on well-formed balances
+pub broadcast axiom fn ax_nb_sub(b: NativeBalance, c: Seq<Coin>)
+    requires b.wf(), nb_sub_ok(b, c)
+    ensures (#[trigger] nb_sub(b, c)).wf(),
+        forall|d: Seq<char>| coins_total(c, d) <= b.amt(d) && nb_sub(b, c).amt(d) == b.amt(d) - coins_total(c, d);
+
 } // verus!
